@@ -201,6 +201,7 @@ BOUNDARY = ["cancel", "single", "eqa_selected", "prices", "audit", "empty_sel", 
 
 class C10(PropBase):
     id = "C10"
+    needs_cli = True     # the borrowed output-protocol cases (C14's) run the real binary
 
     # -- generation
     def gen(self, rng, tier, focus=None):
@@ -212,6 +213,17 @@ class C10(PropBase):
         n = 1500 if tier == "quick" else 30000
         for _ in range(n):
             out.append(self.mk(rng, "random"))
+        # "a new journal opened with the export continues from identical balances" needs the export file to be exactly
+        # the export: an equity export written where a file already exists (an earlier, longer export) must be refused, the
+        # file left as it was - C14's cases, borrowed for the equity destination (run and judged by C14's plug-in)
+        if not focus:
+            import c14
+            for inp in c14.INPUTS:
+                for ln in (0, 7, 9000):
+                    out.append(dict(c14.PROP.mk(rng, "existing", "small", inp, [], ["equity"], existing=[{"t": "equity", "len": ln}]),
+                                    delegate="c14", kind="out:existing-equity"))
+                out.append(dict(c14.PROP.mk(rng, "existing", "small", inp, ["balance"], ["identity", "equity"],
+                                            existing=[{"t": "equity", "len": 5000}]), delegate="c14", kind="out:existing-equity"))
         return out
 
     def mk(self, rng, kind):
